@@ -92,7 +92,8 @@ def required_cells(tier):
     req = {"family:hand": 8, "family:rand": 8, "family:pttempo": 4,
            "import:file": 20, "import:simple": 20, "gen2:file": 10,
            "gen2:simple": 10, "rank3": 4, "rank4": 4, "transform:yes": 4,
-           "transform:no": 4, "transform:nonsquare": 2, "dt:none": 4,
+           "transform:no": 4, "transform:nonsquare": 2,
+           "transform:near-identity": 2, "dt:none": 4,
            "dt:set": 4, "name:none": 2, "name:set": 4, "name:unicode": 1,
            "name:empty": 1, "caps:explicit": 4, "caps:compute": 4,
            "caps:none": 1, "caps:partial": 1, "initial:set": 1,
@@ -721,6 +722,9 @@ def describe_cells(ctx, snap, caps_mode):
     for t in (snap["tin"], snap["tout"]):
         if t is not None and t.shape[0] != t.shape[1]:
             ctx.cells.append("transform:nonsquare")
+        elif t is not None and np.allclose(t, np.eye(t.shape[0]),
+                                           rtol=0, atol=1e-4):
+            ctx.cells.append("transform:near-identity")
     ctx.cells.append("dt:none" if snap["dt"] is None else "dt:set")
     nm = snap["name"]
     if nm == "__unnamed__":
@@ -897,7 +901,19 @@ def build_rand(rng, idx):
     tin = tout = None
     def unit(mat):
         return mat / np.linalg.norm(mat, 2)
-    if tmode == "square":
+    if tmode == "square" and idx % 4 == 1:
+        # transforms that are the identity or almost the identity (a frame
+        # rotating by a phase of ~1e-5 per step): they are transforms all
+        # the same and must come back as they were stored
+        tmode = "near-identity"
+        if idx % 8 == 1:
+            tin = np.eye(d2, dtype=complex)
+            tout = np.eye(d2, dtype=complex)
+        else:
+            ph = rng.uniform(-1, 1, size=d2) * 8e-6
+            tin = np.diag(np.exp(1j * ph))
+            tout = np.diag(np.exp(-1j * ph))
+    elif tmode == "square":
         tin = unit(gen.cplx(rng, (d2, d2)) + 2 * np.eye(d2))
         tout = unit(gen.cplx(rng, (d2, d2)) + 2 * np.eye(d2))
     elif tmode == "nonsquare":
